@@ -1,6 +1,10 @@
 package c05
 
 import (
+	"github.com/gorilla/mux"
+	"tunnox-core/internal/httpservice"
+	wsmodule "tunnox-core/internal/httpservice/modules/websocket"
+
 	"bytes"
 	"context"
 	"encoding/binary"
@@ -277,6 +281,7 @@ func sign(x int) int {
 
 type WSMsgCase struct {
 	Msgs []WSMsg `json:"ws_msgs"`
+	Rig  string  `json:"ws_rig,omitempty"` // "" = the protocol adapter's server connection; "module" = the HTTP service's WebSocket module
 }
 type WSMsg struct {
 	Kind string `json:"kind"` // binary | text | ping | pong | empty
@@ -284,26 +289,48 @@ type WSMsg struct {
 }
 
 func runWSMsgs(t vkit.TB, c WSMsgCase) (key, detail string) {
-	up := websocket.Upgrader{}
-	ch := make(chan *websocket.Conn, 1)
-	ts := httptest.NewServer(http.HandlerFunc(func(w http.ResponseWriter, r *http.Request) {
-		if cn, err := up.Upgrade(w, r, nil); err == nil {
-			ch <- cn
+	var cc *websocket.Conn
+	var srv io.ReadWriteCloser
+	if c.Rig == "module" {
+		module := wsmodule.NewWebSocketModule(context.Background(), &httpservice.WebSocketModuleConfig{Enabled: true})
+		router := mux.NewRouter()
+		module.RegisterRoutes(router)
+		hs := httptest.NewServer(router)
+		defer hs.Close()
+		var err error
+		cc, _, err = websocket.DefaultDialer.Dial("ws"+strings.TrimPrefix(hs.URL, "http")+"/_tunnox", nil)
+		if err != nil {
+			t.Fatalf("HARNESS-ERROR websocket dial: %v", err)
 		}
-	}))
-	defer ts.Close()
-	cc, _, err := websocket.DefaultDialer.Dial("ws"+strings.TrimPrefix(ts.URL, "http"), nil)
-	if err != nil {
-		t.Fatalf("HARNESS-ERROR websocket dial: %v", err)
+		select {
+		case sc := <-module.GetConnChan():
+			srv = sc
+		case <-time.After(10 * time.Second):
+			t.Fatalf("HARNESS-ERROR the module did not hand out the connection")
+		}
+	} else {
+		up := websocket.Upgrader{}
+		ch := make(chan *websocket.Conn, 1)
+		ts := httptest.NewServer(http.HandlerFunc(func(w http.ResponseWriter, r *http.Request) {
+			if cn, err := up.Upgrade(w, r, nil); err == nil {
+				ch <- cn
+			}
+		}))
+		defer ts.Close()
+		var err error
+		cc, _, err = websocket.DefaultDialer.Dial("ws"+strings.TrimPrefix(ts.URL, "http"), nil)
+		if err != nil {
+			t.Fatalf("HARNESS-ERROR websocket dial: %v", err)
+		}
+		var sc *websocket.Conn
+		select {
+		case sc = <-ch:
+		case <-time.After(10 * time.Second):
+			t.Fatalf("HARNESS-ERROR websocket accept timed out")
+		}
+		srv = adapter.VerifNewWSServerConn(sc, "127.0.0.1:1")
 	}
 	defer cc.Close()
-	var sc *websocket.Conn
-	select {
-	case sc = <-ch:
-	case <-time.After(10 * time.Second):
-		t.Fatalf("HARNESS-ERROR websocket accept timed out")
-	}
-	var srv net.Conn = adapter.VerifNewWSServerConn(sc, "127.0.0.1:1")
 	defer srv.Close()
 	sp := stream.NewStreamProcessor(srv, srv, context.Background())
 	defer sp.Close()
@@ -343,19 +370,38 @@ func runWSMsgs(t vkit.TB, c WSMsgCase) (key, detail string) {
 	select {
 	case p := <-done:
 		if p != "" {
-			return "C05/decoder-panic/websocket-message-types", p
+			return "C05/decoder-panic/websocket-message-types" + rigTag(c.Rig), p
 		}
 	case <-time.After(10 * time.Second):
-		return "C05/decoder-does-not-return/websocket-message-types", "the peer sent its messages and closed the connection; ReadPacket is still blocked 10 s later"
+		return "C05/decoder-does-not-return/websocket-message-types" + rigTag(c.Rig), "the peer sent its messages and closed the connection; ReadPacket is still blocked 10 s later"
 	}
 	return "", ""
+}
+
+func rigTag(r string) string {
+	if r == "" {
+		return ""
+	}
+	return "/rig=" + r
 }
 
 func TestWebSocketMessageTypes(t *testing.T) {
 	vkit.Check(t, 320, 16000, func(t *rapid.T) {
 		var c WSMsgCase
+		c.Rig = rapid.SampledFrom([]string{"", "", "module"}).Draw(t, "rig")
 		inner := genValidStream(t)
 		nonBinary := false
+		if rapid.IntRange(0, 3).Draw(t, "oversized") == 0 {
+			// a header in one message, then ONE message larger than the announced body (and larger than the
+			// buffer a reader would allocate for it)
+			l := rapid.SampledFrom([]int{0, 1, 10, 4095, 4096, 5000}).Draw(t, "announced")
+			var h [5]byte
+			h[0] = rapid.SampledFrom([]byte{0x01, 0x22, 0x10}).Draw(t, "type")
+			binary.BigEndian.PutUint32(h[1:], uint32(l))
+			c.Msgs = append(c.Msgs, WSMsg{Kind: "binary", Hex: fmt.Sprintf("%x", h[:])})
+			big := rapid.SampledFrom([]int{l + 1, 4096, 4097, 5000, 8193, 70000}).Draw(t, "big")
+			c.Msgs = append(c.Msgs, WSMsg{Kind: "binary", Hex: fmt.Sprintf("%x", bytes.Repeat([]byte{0x5a}, big))})
+		}
 		for n := rapid.IntRange(1, 6).Draw(t, "nmsgs"); n > 0; n-- {
 			k := rapid.SampledFrom([]string{"binary", "binary", "binary", "text", "ping", "pong", "empty"}).Draw(t, "kind")
 			var b []byte
